@@ -2,3 +2,4 @@ pub mod proof_graph;
 pub mod modules;
 pub mod tms;
 pub mod kb;
+pub mod watermark;
